@@ -114,18 +114,22 @@ package dspinner
 // ---- C22: failed calls change nothing -------------------------------------------------------
 // a call that fails for a reason other than a storage fault leaves the pin state untouched
 //@ func (*pinner).doPinDirect
-//@   prop C22
+//@   prop C22 C23
 //@   arith int
 //@   requires p != nil
 //@   modifies all
+// C23: a CID the operation keeps pinned must stay pinned at every crash point, i.e. the new
+// pin record has to be written before the old one is removed
+//@   site[new_pin_before_old_removed] call:pinner.addPin : muts() == old(muts())
 //@   ensures[error_frame] err != nil && !faulted() ==> muts() == old(muts())
 //@   ensures[refuses_if_recursive] res("invoke:Indexer.HasAny#0") && res("invoke:Indexer.HasAny#0", 1) == nil ==> err != nil && muts() == old(muts())
 
 //@ func (*pinner).doPinRecursive
-//@   prop C22
+//@   prop C22 C23
 //@   arith int
 //@   requires p != nil
 //@   modifies all
+//@   site[new_pin_before_old_removed] call:pinner.addPin : muts() == old(muts())
 //@   ensures[error_frame] err != nil && !faulted() ==> muts() == old(muts())
 
 //@ func (*pinner).Unpin
